@@ -22,17 +22,27 @@ def mk(wl, k, sticky, short):
              group="C16.S1.w%d" % wl, hang_is_violation=True)
 
 def ncalls(ctx, wl):
+    """fault-free native run: number of stdio calls and, per call, the API call (source line) issuing it"""
     h = mk(wl, -1, 0, 0)
     rep, out = native_replay(ctx, h, {})
     m = re.search(r"H4V-NCALLS (\d+)", out or "")
-    return int(m.group(1)) if m else 60
+    n = int(m.group(1)) if m else 60
+    m = re.search(r"H4V-PHASES((?: \d+)*)", out or "")
+    phases = [int(x) for x in m.group(1).split()] if m else []
+    return n, phases
 
 def plan(ctx, tier, seed):
     hs = []
     for wl in (0, 1, 10, 11):
-        n = ncalls(ctx, wl)
+        n, phases = ncalls(ctx, wl)
         step = 4 if tier == "quick" else 1
-        ks = list(range((seed % step), n, step))
+        ks = set(range((seed % step), n, step))
+        # the flush at the final close (and at Hsync) is where swallowed failures hide: every call of the last API call
+        # and of the largest other flush phase is always included
+        if phases:
+            tail = sorted(set(phases))[-3:]  # the last three API calls of the workload (sync / last edits / close)
+            ks |= {k for k, ph in enumerate(phases) if ph in tail}
+        ks = sorted(ks)
         for k in ks:
             variants = [(0, 0)] if tier == "quick" else [(0, 0), (1, 0), (0, 3)]
             if tier == "quick" and k % 8 < 4:
